@@ -524,8 +524,43 @@ def gen_shapes(chk):
     return [sh for sh in shapes if sh is not None]
 
 
+# How the Environment that renders is obtained from the one that was configured, and through which API the
+# render is started.  The limit in force must be the configured one on every one of these ways.
+ENVS = ["original", "clone", "clone_of_clone", "clone_modified", "clone_then_set", "stale_clone", "original_after_clone",
+        "moved_thread", "scoped_thread", "arc_thread", "loader", "autoreload", "autoreload_reloaded", "autoreload_fast"]
+APIS = ["get_template", "template_from_str", "template_from_named_str", "render_str", "render_named_str",
+        "render_captured", "render_captured_to", "new_state_block", "captured_block", "captured_macro"]
+STATE_APIS = {"new_state_block": KB, "captured_block": KB, "captured_macro": KM}
+
+
+def derive_shape(s, env, api):
+    """the same program, rendered through a derived environment / another entry point"""
+    d = dict(s)
+    d.pop("pure", None)
+    d["env"], d["api"] = env, api
+    d["desc"] = dict(s["desc"], environment=env, api=api)
+    if api in STATE_APIS:
+        # State::render_block / State::call_macro (on a fresh state, or on the state a finished render left behind):
+        # the entry block / macro includes the program
+        t = dict(s["templates"])
+        if STATE_APIS[api] == KB:
+            t["entry_t"] = "{% if false %}{% block entry %}{% include 'main' %}{% endblock %}{% endif %}"
+        else:
+            t["entry_t"] = "{% macro entry() %}{% include 'main' %}{% endmacro %}"
+        d["templates"] = t
+        d["pre"] = [call(STATE_APIS[api]), call(KI)] + list(s["pre"])
+        d["entry"] = ["entry_t", "entry"]
+    if env == "stale_clone":
+        d["limit_in_force"] = "default"      # cloned before set_recursion_limit: the clone keeps the default
+    return d
+
+
+def level_in_force(s, lv):
+    return None if s.get("limit_in_force") == "default" else lv
+
+
 def shape_key(s):
-    return hashlib.sha256(json.dumps([s["templates"], s["nest"]], sort_keys=True).encode()).hexdigest()[:16]
+    return hashlib.sha256(json.dumps([s["templates"], s["nest"], s.get("env"), s.get("api")], sort_keys=True).encode()).hexdigest()[:16]
 
 
 def model_line(level, s):
@@ -535,10 +570,17 @@ def model_line(level, s):
 def request(s, level, stack_kib, main_thread=False):
     # recursive-loop shapes iterate data nested deeper than the limit can reach (limit - 1 levels at most); not much
     # deeper: in a debug build the error's debug info pretty-prints the loop variable, which is cubic in its nesting
-    nest = (2 + (500 if level is None else min(level, 500))) if s["nest"] else 0
+    lvf = level_in_force(s, level)
+    nest = (2 + (500 if lvf is None else min(lvf, 500))) if s["nest"] else 0
     r = {"templates": s["templates"], "main": s["main"], "limit": level, "stack_kib": stack_kib, "nest": nest}
     if main_thread:
         r["main_thread"] = True
+    if s.get("env"):
+        r["env"] = s["env"]
+    if s.get("api"):
+        r["api"] = s["api"]
+    if s.get("entry"):
+        r["entry_template"], r["entry_name"] = s["entry"]
     return r
 
 
@@ -633,6 +675,27 @@ def main():
                 if fits(i, lv):
                     cases.append((i, lv))
         main_cases = list(range(0, len(cases), max(1, len(cases) // (400 if chk.thorough else 60))))
+        # the derivation dimension: every way of obtaining the rendering environment x every entry API, on the pure
+        # recursions and a seeded sample of decorated programs, at the limit set and a few limits off the grid
+        base_ids = [i for i, sh in enumerate(shapes) if sh.get("pure") == 1]
+        rest = [i for i, sh in enumerate(shapes) if not sh.get("pure") and "limits" not in sh and not sh["nest"]]
+        base_ids += sorted(set(rest[chk.rng.below(len(rest))] for _ in range(60 if chk.thorough else 8)))
+        pairs = [(e, "get_template") for e in ENVS if e != "original"] + [("original", a) for a in APIS if a != "get_template"]
+        pairs += [("clone", a) for a in APIS if a != "get_template"] + [("moved_thread", "captured_block"), ("autoreload", "render_str"),
+                                                                        ("clone_of_clone", "captured_macro"), ("loader", "new_state_block")]
+        if chk.thorough:
+            pairs = [(e, a) for e in ENVS for a in APIS if (e, a) != ("original", "get_template")]
+        deriv_limits = LIMITS + [12, 24, 77, None] + ([3, 7, 17, 33, 150, 333, 499, 501] if chk.thorough else [])
+        n_base = len(shapes)
+        for (e, a) in pairs:
+            for i in base_ids:
+                shapes.append(derive_shape(shapes[i], e, a))
+                for lv in deriv_limits:
+                    if a == "new_state_block" and (lv is None or lv >= 500):
+                        continue     # (see in_force: the shifted limit must stay below the clamp)
+                    if fits(len(shapes) - 1, level_in_force(shapes[-1], lv)):
+                        cases.append((len(shapes) - 1, lv))
+        deriv_from = n_base
         # every limit in [1, 500] on the pure recursions (the closed forms levels_macro .. levels_loop at every L)
         n_grid = len(cases)
         pure = [i for i, sh in enumerate(shapes) if sh.get("pure")]
@@ -648,7 +711,15 @@ def main():
                     continue     # the other spellings: every limit up to 64, then every 13th (all of them in the thorough tier)
                 if lv not in LIMITS and fits(i, lv) and not (shapes[i]["nest"] and lv > 160 and lv % 20):
                     cases.append((i, lv))
-    lines = [model_line(500 if lv is None else lv, shapes[i]) for (i, lv) in cases]
+    def in_force(j):
+        lv = level_in_force(shapes[cases[j][0]], cases[j][1])
+        return 500 if lv is None else lv
+
+    def model_level(j):
+        # Template::new_state() starts from an EMPTY context (depth 0; a render starts with its root frame, depth 1):
+        # every admission test "depth + need <= limit" is the model's test under limit + 1
+        return in_force(j) + (1 if shapes[cases[j][0]].get("api") == "new_state_block" else 0)
+    lines = [model_line(model_level(j), shapes[cases[j][0]]) for j in range(len(cases))]
     model = prun_model("c11", lines)
     spec = prun_model("c11-spec", lines)
     # kernel cross-check of the extraction on a sample
@@ -660,7 +731,7 @@ def main():
 
     results = {}
     for (rel, kib) in configs:
-        order = sorted((j for j in range(len(cases)) if j < n_grid or kib == 2048 or chk.thorough),
+        order = sorted((j for j in range(len(cases)) if (j < n_grid and not (shapes[cases[j][0]].get("env") and kib != 2048)) or kib == 2048 or chk.thorough),
                        key=lambda j: (500 if cases[j][1] is None else min(cases[j][1], 500)))
         reqs = [request(shapes[cases[j][0]], cases[j][1], kib) for j in order]
         outs = run_impl_json(reqs, rel)
@@ -693,7 +764,7 @@ def main():
         rel, kib, mt = cfg
         i, lv = cases[j]
         s = shapes[i]
-        rep = {"shape": {"templates": s["templates"], "main": s["main"], "pre": s["pre"], "cyc": s["cyc"], "nest": s["nest"], "desc": s["desc"]},
+        rep = {"shape": {k: s[k] for k in ("templates", "main", "pre", "cyc", "nest", "desc", "env", "api", "entry", "limit_in_force") if k in s},
                "level": lv, "profile": "release" if rel else "debug",
                "request": request(s, lv, kib, mt), "stack": "process main thread" if mt else "%d KiB thread" % kib,
                "model": model[j], "spec": spec[j], "engine": r if not isinstance(r, dict) else {k: v for k, v in r.items()},
@@ -711,7 +782,7 @@ def main():
                 continue
             evaluations += 1
             i, lv = cases[j]
-            eff = 500 if lv is None else min(lv, 500)
+            eff = min(in_force(j), 500)
             ob = observed(r)
             exp = model[j]
             if ob[0] == "CRASH" or ob[0] == "BAD":
@@ -727,7 +798,8 @@ def main():
                 report("panic", "a recursive template made the engine panic", j, cfg, r)
                 continue
             if r.get("effective_limit") != eff:
-                report("clamp", "Environment::recursion_limit() after set_recursion_limit differs from min(level, 500)", j, cfg, r, nfi=True)
+                report("clamp", "the recursion limit in force in the rendering environment (Environment::recursion_limit()) is not the configured one, min(level, 500)", j, cfg, r,
+                       {"limit_in_force": r.get("effective_limit"), "configured": eff})
             if ob[0] == 0 or ob[1] != 3 or ob[3] != "reclimit":
                 counts["no recursion error"] += 1
                 report("noerr", "an unbounded recursion did not end with the 'recursion limit exceeded' error", j, cfg, r)
@@ -761,6 +833,7 @@ def main():
     nontriv = set()
     lvl_hist = collections.Counter()
     spell_hist = collections.Counter()
+    deriv_hist = collections.Counter()
     for j, (i, lv) in enumerate(cases):
         s = shapes[i]
         d = s["desc"]
@@ -785,6 +858,8 @@ def main():
             spell_hist["extends: " + ex] += 1
             spell_hist["super(): " + su] += 1
         hist["limit: %s" % ("default" if lv is None else lv)] += 1
+        deriv_hist["environment: " + s.get("env", "original")] += 1
+        deriv_hist["api: " + s.get("api", "get_template")] += 1
         n = model[j][2] if len(model[j]) >= 3 else -1
         lvl_hist["levels %s" % ("0" if n == 0 else "1" if n == 1 else "2-9" if n < 10 else "10-49" if n < 50 else "50+")] += 1
         if n >= 2:
@@ -820,6 +895,7 @@ def main():
     chk.cov["distribution"] = dict(hist)
     chk.cov["levels_distribution"] = dict(lvl_hist)
     chk.cov["spelling_distribution"] = dict(sorted(spell_hist.items()))
+    chk.cov["environment_derivation_distribution"] = dict(sorted(deriv_hist.items()))
     all_spellings = (["%s: %s" % (e, sp) for e in SPELL for sp in SPELL[e]] + ["super(): " + x for x in SUPER_SPELL] + ["loop(): " + x for x in LOOP_SPELL]
                      + ["extends: " + x for x in EXTENDS_SPELL] + ["start library macro: " + x for x in MODULE_STARTS])
     chk.cov["spellings_never_rendered"] = [x for x in all_spellings if not spell_hist.get(x)] if not chk.replay else []
